@@ -1,7 +1,7 @@
 ---------------------------- MODULE PlutusOrdDom ----------------------------
 (* The universe U of PlutusData terms for C07, as a SEQUENCE (the index is   *)
 (* the term's identity in vectors and in the logged comparison matrix).      *)
-(* Tier 1: 57 terms to depth 2; Tier 2: 145 terms to depth 4.                *)
+(* Tier 1: 72 terms to depth 2; Tier 2: ~190 terms to depth 4.               *)
 EXTENDS PlutusOrd
 CONSTANT Tier
 
@@ -15,11 +15,17 @@ Ints1 == <<PInt(FALSE, <<>>), PInt(FALSE, <<1>>), PInt(TRUE, <<>>), PInt(FALSE, 
 Ints2 == <<PInt(FALSE, <<2>>), PInt(TRUE, <<1>>), PInt(FALSE, <<1, 0>>), PInt(TRUE, <<255>>), PInt(FALSE, <<127, 255, 255, 255, 255, 255, 255, 255>>),
            PBigU(<<2>>), PBigU(<<255>>), PBigU(<<1, 0>>), PBigN(<<2>>), PBigN(M64), PBigN(<<0, 1>>), PBigU(Fill(65, 1)), PBigN(Fill(65, 1)),
            PBigU(<<0>> \o M64), PBigU(<<1, 0, 0, 0, 0, 0, 0, 0, 1>>)>>
-Bytes1 == <<PBytes(<<>>), PBytes(<<0>>), PBytes(<<1>>), PBytes(Fill(64, 0)), PBytes(Fill(65, 0)), PBytes(Fill(64, 0) \o <<0>>)>>
-Bytes2 == <<PBytes(Fill(63, 0)), PBytes(Fill(129, 0)), PBytes(Fill(128, 0)), PBytes(<<1, 0>>), PBytes(<<0, 1>>), PBytes(Fill(23, 0)),
-            PBytes(Fill(24, 0)), PBytes(Fill(65, 3))>>
+\* lengths around every multiple of the chunk size: k*64-1, k*64, k*64+1 (quick k <= 3, thorough k <= 5)
+Bytes1 == <<PBytes(<<>>), PBytes(<<0>>), PBytes(<<1>>), PBytes(Fill(64, 0)), PBytes(Fill(65, 0)), PBytes(Fill(64, 0) \o <<0>>),
+            PBytes(Fill(127, 0)), PBytes(Fill(128, 0)), PBytes(Fill(129, 0)), PBytes(Fill(191, 0)), PBytes(Fill(192, 0)), PBytes(Fill(193, 0))>>
+BigLong1 == <<PBigU(Fill(64, 1)), PBigU(Fill(128, 1)), PBigU(Fill(129, 1)), PBigU(Fill(192, 1)), PBigN(Fill(64, 1)), PBigN(Fill(127, 1)),
+              PBigN(Fill(128, 1)), PBigN(Fill(192, 1)), PBigN(Fill(193, 1))>>
+Bytes2 == <<PBytes(Fill(63, 0)), PBytes(<<1, 0>>), PBytes(<<0, 1>>), PBytes(Fill(23, 0)), PBytes(Fill(24, 0)), PBytes(Fill(65, 3)),
+            PBytes(Fill(255, 0)), PBytes(Fill(256, 0)), PBytes(Fill(257, 0)), PBytes(Fill(319, 0)), PBytes(Fill(320, 0)), PBytes(Fill(321, 0)),
+            PBigU(Fill(63, 1)), PBigU(Fill(191, 1)), PBigU(Fill(193, 1)), PBigU(Fill(256, 1)), PBigU(Fill(257, 1)), PBigU(Fill(320, 1)),
+            PBigN(Fill(129, 1)), PBigN(Fill(191, 1)), PBigN(Fill(255, 1)), PBigN(Fill(256, 1)), PBigN(Fill(320, 1))>>
 
-Atoms == Ints1 \o Bytes1 \o (IF Tier = 1 THEN <<>> ELSE Ints2 \o Bytes2)
+Atoms == Ints1 \o Bytes1 \o BigLong1 \o (IF Tier = 1 THEN <<>> ELSE Ints2 \o Bytes2)
 
 i0 == PInt(FALSE, <<>>)
 i1 == PInt(FALSE, <<1>>)
